@@ -21,10 +21,10 @@ type Bad struct {
 }
 
 type ValStats struct {
-	Traces   int
-	Events   int
-	States   int
-	Bad      []Bad
+	Traces int
+	Events int
+	States int
+	Bad    []Bad
 }
 
 // ValidateTraces lets TLC check every recorded run against GoderiveTrace.tla.
